@@ -47,7 +47,7 @@ func runC06(e *Env) {
 	c06Retention(e)
 	c06ReqID(e)
 	c06NewestFirst(e)
-	c06UnboundedLine(e)
+	c06UnboundedLine(e, "C06.unbounded-line")
 	c06CacheValidator(e)
 	c07Candidates(e) // a run whose file is dropped from the candidates by name is not returned
 	c07AppendOnly(e) // an update that does not append leaves queries answering the pre-update record
@@ -798,9 +798,9 @@ func keyIndex(v ssa.Value, tsFn, less *ssa.Function) (int, bool) {
 	return 0, false
 }
 
-func c06UnboundedLine(e *Env) {
+func c06UnboundedLine(e *Env, rule string) {
 	r := e.R
-	r.Rule("C06.unbounded-line", "SIB", "history line reader has no fixed line-length cap", 1)
+	r.Rule(rule, "SIB", "history line reader has no fixed line-length cap", 1)
 	pf := e.Fn(jsondbRel, "ParseFile")
 	if pf == nil {
 		return
